@@ -450,6 +450,7 @@ func (p *parser) precedence(lhs Node, minP int) Node {
 	for IsExprOperator(look.typ) && precedence[look.typ] >= minP {
 		op := p.next()
 		c := p.consumeComment()
+		rhsPos := p.peek().pos
 		rhs := p.primary()
 		look = p.peek()
 		// left-associative
@@ -458,7 +459,10 @@ func (p *parser) precedence(lhs Node, minP int) Node {
 			look = p.peek()
 		}
 
-		multiLine := p.hasNewLine(lhs.Position(), rhs.Position())
+		// The expression is multi line if the line breaks around its own operator,
+		// line breaks inside of the operands belong to the operands.
+		before := strings.TrimRight(p.text[:op.pos], " \t\r\n")
+		multiLine := p.hasNewLine(len(before), rhsPos)
 		lhs = newBinary(p.position(op.pos), op.typ, lhs, rhs, multiLine, c)
 	}
 	return lhs
